@@ -17,7 +17,8 @@ from .. import apps, common, explore, oracle, refhttp, seq
 from ..evidence import Run
 from . import c04
 
-KINDS = ["plain", "post", "expect-body", "expect-nobody", "expect-refused", "expect-10"]
+KINDS = ["plain", "post", "expect-body", "expect-nobody", "expect-refused", "expect-10", "expect-caps"]
+WITH_BODY = ("expect-body", "expect-caps")  # the expectation token is case-insensitive (RFC 9110 10.1.1)
 _env = {}
 
 
@@ -39,6 +40,8 @@ def message(kind, i):
         return (f"POST /m{i} HTTP/1.1\r\nHost: h\r\n{idh}Content-Length: 4\r\n\r\n").encode(), b"abcd"
     if kind == "expect-body":
         return (f"POST /m{i} HTTP/1.1\r\nHost: h\r\n{idh}Expect: 100-continue\r\nContent-Length: 5\r\n\r\n").encode(), b"hello"
+    if kind == "expect-caps":
+        return (f"POST /m{i} HTTP/1.1\r\nHost: h\r\n{idh}Expect: 100-Continue\r\nContent-Length: 5\r\n\r\n").encode(), b"hello"
     if kind == "expect-nobody":
         return (f"POST /m{i} HTTP/1.1\r\nHost: h\r\n{idh}Expect: 100-continue\r\nX-Own: {i}\r\n\r\n").encode(), b""
     if kind == "expect-refused":
@@ -104,7 +107,7 @@ def judge_pipeline(kinds, wire, closed, calls, mode, escaped):
                 v.append(("status", f"kinds={kinds} mode={mode}: request {i} ({k}) answered {status}"))
             if n100 > 1:
                 v.append(("interim-twice", f"kinds={kinds} mode={mode}: {n100} interim responses for request {i}"))
-            if mode == "waiting" and k == "expect-body" and n100 != 1:
+            if mode == "waiting" and k in WITH_BODY and n100 != 1:
                 v.append(("client-left-waiting" if n100 == 0 else "interim-twice", f"kinds={kinds}: waiting client got {n100} interim responses for request {i}"))
     # executed exactly once, with its own header fields only
     want_calls = [i for i in expect_served if kinds[i] != "expect-refused"]
@@ -148,7 +151,7 @@ def run_pipeline(kinds, mode):
             if c.wire.count(b"100 Continue") != before:
                 v.append(("interim-before-head-complete", f"kinds={kinds}: interim response sent before the header block of request {i} was complete"))
             c.send(h[-1:])
-            if kinds[i] == "expect-body" and not c.closed:
+            if kinds[i] in WITH_BODY and not c.closed:
                 if c.wire.count(b"100 Continue") != before + 1:
                     v.append(("client-left-waiting", f"kinds={kinds}: no '100 Continue' after the head of request {i} although every earlier request is finished; wire tail={c.wire[-80:]!r}"))
             if b and not c.closed:
@@ -273,7 +276,7 @@ def main(tier, only=None):
     run = Run("C19", tier)
     rnd = random.Random(common.SEED)
     run.cov["rule"] = (
-        "sequential: all pipelines of <= 3 requests over {plain, post, expect-body, expect-nobody, expect-refused, expect-10} x {one read, waiting client, byte-wise}; all segmentations (cut graph) of pipelines of <= 2; "
+        "sequential: all pipelines of <= 3 requests over {plain, post, expect-body, expect-nobody, expect-refused, expect-10, expect-caps (100-Continue)} x {one read, waiting client, byte-wise}; all segmentations (cut graph) of pipelines of <= 2; "
         "schedules: " + c04.RULE
     )
     run.assume(*c04.ASSUME)
@@ -284,7 +287,7 @@ def main(tier, only=None):
     batches = [items[i : i + 60] for i in range(0, len(items), 60)]
     graphs = [list(t) for n in (1, 2) for t in itertools.product(KINDS, repeat=n)]
     if tier == "quick":
-        graphs = [g for g in graphs if len(g) == 1 or ("expect-body" in g or "expect-nobody" in g)]
+        graphs = [g for g in graphs if len(g) == 1 or (("expect-body" in g or "expect-nobody" in g) and "expect-caps" not in g)]
     ctx = mp.get_context("fork")
     viol = []
     n = 0
